@@ -732,6 +732,7 @@ const SIG_MIXED_C03: &str = "c03:mixed-set-cdata-drops-children";
 const SIG_MIXED_C04: &str = "c04:mixed-set-cdata-drops-children";
 const SIG_MIXED_C05: &str = "c05:mixed-set-cdata-drops-children";
 const SIG_LATE_SN: &str = "c04:short-name-added-later-not-indexed";
+const SIG_BEFORE_SN: &str = "c04:content-before-short-name-in-mixed-named-element";
 // families found by this scenario (NOT in the task's list; proposed signatures, see the report)
 const SIG_RMSELF: &str = "c12:remove-self-deadlock";
 const SIG_DANGLING_RENAME: &str = "c06:rename-rewrites-dangling-prefix";
@@ -797,6 +798,9 @@ pub struct Checker {
     /// a SHORT-NAME was created with `create_sub_element` in an element that existed without one (its type has no name in the
     /// version it was created in): known finding c04:short-name-added-later-not-indexed; the path index stays behind from here on
     late_short_name: bool,
+    /// content was inserted at position 0 of an identifiable element with MIXED content (in front of its SHORT-NAME): known
+    /// finding c04:content-before-short-name-in-mixed-named-element
+    before_short_name: bool,
 }
 
 fn walk(e: &Element, depth: usize, parent: Option<usize>, out: &mut Vec<(usize, Element, Option<usize>)>) {
@@ -915,6 +919,7 @@ impl Checker {
             alien_type: false,
             counts: BTreeMap::new(),
             late_short_name: false,
+            before_short_name: false,
         }
     }
 
@@ -1570,6 +1575,10 @@ impl Checker {
         let late_sn_trigger = verb == "create"
             && words.get(2).and_then(|n| n.parse::<usize>().ok()).is_some_and(|n| n == ElementName::ShortName as usize)
             && handles.first().is_some_and(|p| p.element_type().is_named());
+        let before_sn_trigger = ((verb == "instext" && words.get(2) == Some(&"0"))
+            || (verb == "create" && words.get(3) == Some(&"0"))
+            || (verb == "named" && words.get(4) == Some(&"0")))
+            && handles.first().is_some_and(|p| p.is_identifiable() && p.content_type() == ContentType::Mixed);
         let sort_pre: Option<SortPre> = if (verb == "sort" || verb == "sortm") && self.on("C14") {
             let top = if verb == "sort" { handles.first().cloned() } else { self.w.h_model(words.get(1).unwrap_or(&"")).map(|m| m.1.root_element()) };
             top.map(|t| SortPre {
@@ -1699,6 +1708,9 @@ impl Checker {
             if ok && late_sn_trigger {
                 self.late_short_name = true;
             }
+            if ok && before_sn_trigger {
+                self.before_short_name = true;
+            }
             if self.on("C04") || container_op || mixed_hit {
                 let mut v = vec![];
                 self.c04(&snaps, &mut v);
@@ -1709,6 +1721,9 @@ impl Checker {
                 } else if !v.is_empty() && mixed_hit {
                     let first = v.remove(0);
                     v = vec![Failure::known("C04", SIG_MIXED_C04, format!("after `{req}` on a MIXED element with sub-elements: {}", first.msg))];
+                } else if !v.is_empty() && self.before_short_name {
+                    let first = v.remove(0);
+                    v = vec![Failure::known("C04", SIG_BEFORE_SN, format!("after `{req}` (content in front of the SHORT-NAME of a MIXED named element): {}", first.msg))];
                 } else if !v.is_empty() && self.late_short_name {
                     let first = v.remove(0);
                     v = vec![Failure::known("C04", SIG_LATE_SN, format!("after `{req}` (a SHORT-NAME was created later in an element that had none): {}", first.msg))];
